@@ -47,19 +47,6 @@ def check(prog, run):
     c06.r4(cx, run)
     r2(cx, run)
     r5(cx, run)
-    # R6: the crate's own sink user (the CLI) gives the library the file itself: see C20.R1 `sink-is-the-file`
-    run.rule("R6", "the crate's own caller (CLI mux command) hands the library the output File itself, not a deferring adaptor whose write errors surface after finish or are lost in Drop")
-    from . import c20
-    ub = prog.bin
-    mux = c20.fn(ub, "mux_command") if ub is not None else None
-    if mux is None:
-        run.bad("R6", "anchor mux_command", "CLI mux command not found")
-    else:
-        b = ub.bodies[mux]
-        news = [t for bb, t, name, info in mir.calls(b) if name and mir.norm(name) == c20.LIB + "MuxerBuilder::new"]
-        run.check(len(news) == 1, "R6", "single library sink", "one MuxerBuilder::new in the mux command", "expected one MuxerBuilder::new in the mux command, found %d" % len(news))
-        for t in news[:1]:
-            c20.sink_is_file(run, b, t, "R6")
 
 
 def r2(cx, run):
